@@ -51,7 +51,7 @@ Proof.
   - exists dead, l, lx. cbn. rewrite app_nil_r, N.add_0_r. reflexivity.
   - cbn [oheight] in Hh. destruct dead as [|s dd]; [cbn in Hh; lia|]. cbn [length] in Hh.
     cbn [flat_open run]. rewrite step_entry, app_nil_r. rewrite run_app.
-    destruct (run_forest (o_kids o) (d + 1) (o_addr o) (o_t0 o) 0 stk dd (usc + 1) (o_t0 o) lx out)
+    destruct (run_forest (o_kids o) (d + 1) (o_addr o) (o_t0 o) 0 stk dd (usc + 1) (o_t0 o) (o_t0 o) out)
       as (dd' & l' & lx' & Hl & E); [lia|].
     rewrite E.
     destruct (IH (d + 1) (oslot o :: stk) dd' (usc + 1) l' lx'
@@ -78,16 +78,17 @@ Fixpoint open_rows (last inner : N) (ros : list oframe) : list row :=
 Fixpoint fits (last inner : N) (ros : list oframe) : Prop :=
   match ros with
   | [] => True
-  | o :: t => Forall wt (o_kids o) /\ o_t0 o + sumdur (o_kids o) + inner <= last /\ fits last (last - o_t0 o) t
+  | o :: t => o_addr o <> 0 /\ Forall wt (o_kids o) /\ o_t0 o + sumdur (o_kids o) + inner <= last
+              /\ fits last (last - o_t0 o) t
   end.
 
 Lemma remaining_open last : last < M64 -> forall ros extra inner,
   (extra = None /\ inner = 0) \/ extra = Some inner ->
   fits last inner ros ->
-  remaining_from last extra (map oslot ros) = open_rows last inner ros.
+  remaining_from false last extra (map oslot ros) = open_rows last inner ros.
 Proof.
   intros Hlast. induction ros as [|o t IH]; intros extra inner Hex Hf; [reflexivity|].
-  cbn [fits] in Hf. destruct Hf as (Hk & Hfit & Hrest).
+  cbn [fits] in Hf. destruct Hf as (Hnz & Hk & Hfit & Hrest).
   cbn [map remaining_from open_rows oslot s_child s_total s_addr].
   assert (child64 (o_kids o) 0 = sumdur (o_kids o)) as Hc.
   { rewrite child64_wt by (auto; lia). lia. }
@@ -98,13 +99,13 @@ Proof.
   rewrite sub64_le by lia.
   replace (last - o_t0 o <? sumdur (o_kids o) + inner) with false by lia.
   rewrite sub64_le by lia.
-  rewrite has_addr_map, map_map. cbn [oslot s_addr].
+  rewrite has_addr_map, map_map. cbn [oslot s_addr]. replace (o_addr o =? 0) with false by lia. cbn [negb andb].
   f_equal; [f_equal; lia|].
   apply IH; [right; reflexivity|exact Hrest].
 Qed.
 
 (* ------------------------------------------------------------------ a whole task *)
-Lemma init_state_mid max_stack : init_state max_stack = mkts false false [] (repeat slot0 (N.to_nat max_stack)) 0 0 0 0.
+Lemma init_state_mid max_stack : init_state max_stack = mkts false false [] (repeat slot0 (N.to_nat max_stack)) 0 0 0 0 false.
 Proof. reflexivity. Qed.
 
 Lemma mapi_id f : (forall i s, f i s = s) -> forall l i, mapi f i l = l.
@@ -112,10 +113,10 @@ Proof. intros Hf. induction l as [|s t IH]; intro i; cbn; [reflexivity|]. rewrit
 
 (* the first record of a trace that starts at depth 0 with an ENTRY only sets fstack_set *)
 Lemma first_entry dead a t :
-  step (mkts false false [] dead 0 0 0 0) (mkrec ENTRY 0 a t) = step (mid [] dead 0 0 0) (mkrec ENTRY 0 a t).
+  step (mkts false false [] dead 0 0 0 0 false) (mkrec ENTRY 0 a t) = step (mid [] dead 0 0 0) (mkrec ENTRY 0 a t).
 Proof.
   unfold step. cbn [t_lost is_lost r_type andb].
-  assert (prepare (mkts false false [] dead 0 0 0 0) (mkrec ENTRY 0 a t) = mid [] dead 0 0 0) as ->.
+  assert (prepare (mkts false false [] dead 0 0 0 0 false) (mkrec ENTRY 0 a t) = mid [] dead 0 0 0) as ->.
   { unfold prepare. cbn [t_set is_exit r_type r_depth]. rewrite N.add_0_r.
     unfold arr_of. cbn [t_live rev app t_dead].
     rewrite mapi_id by (intros i s; replace (i <? 0) with false by lia; reflexivity).
@@ -126,7 +127,7 @@ Qed.
 
 Lemma run_first_entry dead out rs :
   match rs with mkrec ENTRY 0 _ _ :: _ => True | _ => False end ->
-  run (mkts false false [] dead 0 0 0 0) out rs = run (mid [] dead 0 0 0) out rs.
+  run (mkts false false [] dead 0 0 0 0 false) out rs = run (mid [] dead 0 0 0) out rs.
 Proof.
   destruct rs as [|[ty d a t] rs']; [tauto|]. destruct ty; try tauto. destruct d; try tauto. intros _.
   cbn [run]. rewrite first_entry. reflexivity.
@@ -169,7 +170,7 @@ Proof.
     { destruct done as [|c cs]; [reflexivity|]. cbn [map concat] in E1.
       destruct (flat_head 0 c) as (a & t & rest & Ef). rewrite Ef in E1. discriminate. }
     reflexivity. }
-  unfold task_rows. rewrite <- Etr. rewrite init_state_mid.
+  unfold task_rows, task_rows_gen. rewrite <- Etr. fold (init_state max_stack). rewrite init_state_mid.
   rewrite run_first_entry by (apply trace_recs_head; rewrite Etr; discriminate).
   pose proof (run_last (trace_recs tt) (mid [] (repeat slot0 (N.to_nat max_stack)) 0 0 0) []) as Hl.
   rewrite Etr in Hl at 1. specialize (Hl ltac:(discriminate)).
